@@ -51,6 +51,9 @@ structure GroupWellFormed (cfg : Cfg) (argMember globMember order : List Nat) : 
   /-- the arguments of a handler constraint live in the member that owns the constraint -/
   gpartners : ∀ g b gd db, cfg.globals[g]? = some gd → cfg.args[b]? = some db →
       globMember.getD g 0 ≠ argMember.getD b 0 → isConstraintArgument gd.keys db.key = false
+  /-- the argument lists of the value constraints differ / disjoint are as `validValueArguments`
+      leaves them, over a type the constraint can compare (`Cfg.ValueArgsOk`, as in `Cfg.WellFormed`) -/
+  vargs : cfg.ValueArgsOk
 
 theorem getD_mem {l : List Nat} {a : Nat} (h : a < l.length) : l.getD a 0 ∈ l := by
   rw [List.getD_eq_getElem?_getD, List.getElem?_eq_getElem h]
@@ -62,7 +65,7 @@ theorem GroupWellFormed.toWF {cfg : Cfg} {am gm order : List Nat} (w : GroupWell
     intro v hv
     obtain ⟨m, hm, rfl⟩ := List.mem_map.mp hv
     exact ⟨m, hm, rfl⟩
-  refine ⟨w.abbr, w.disj, w.nopos, ?_, ?_, ?_, ?_, ?_, ?_, ?_, ?_, ?_⟩
+  refine ⟨w.abbr, w.disj, w.nopos, ?_, ?_, ?_, ?_, ?_, ?_, ?_, ?_, ?_, w.vargs⟩
   · intro v hv
     obtain ⟨m, _, rfl⟩ := hview v hv
     exact memberArgIdx_nodup am m
